@@ -249,7 +249,7 @@ func flowsToLine(v ssa.Value) bool {
 			case *ssa.Call:
 				if f := u.Call.StaticCallee(); f != nil {
 					for i, a := range u.Call.Args {
-						if a == x && i < len(f.Params) && f.Params[i].Name() == "line" {
+						if a == x && i < len(f.Params) && isLineParam(f, i, 0) {
 							return true
 						}
 					}
@@ -420,6 +420,41 @@ func isPhiOnly(v ssa.Value, target *ssa.Phi, depth int) bool {
 			}
 		}
 		return true
+	}
+	return false
+}
+
+// isLineParam: parameter i of f is stored into a Line/StartLine/EndLine field, or passed on to such a parameter.
+func isLineParam(f *ssa.Function, i int, depth int) bool {
+	if depth > 3 || i >= len(f.Params) || len(f.Blocks) == 0 {
+		return false
+	}
+	prm := f.Params[i]
+	if bt, ok := prm.Type().Underlying().(*types.Basic); !ok || bt.Kind() != types.Int {
+		return false
+	}
+	refs := prm.Referrers()
+	if refs == nil {
+		return false
+	}
+	for _, r := range *refs {
+		switch u := r.(type) {
+		case *ssa.Store:
+			if fa, ok := u.Addr.(*ssa.FieldAddr); ok && u.Val == ssa.Value(prm) {
+				switch core.FieldName(fa) {
+				case "Line", "StartLine", "EndLine":
+					return true
+				}
+			}
+		case *ssa.Call:
+			if g := u.Call.StaticCallee(); g != nil {
+				for k, a := range u.Call.Args {
+					if a == ssa.Value(prm) && isLineParam(g, k, depth+1) {
+						return true
+					}
+				}
+			}
+		}
 	}
 	return false
 }
